@@ -74,8 +74,11 @@ func q(b []byte) string {
 }
 
 // openData greets, opens a transaction with n recipients (r0@x ..) and sends
-// DATA, all lock-step; it returns an error text if the 354 did not arrive.
-func openData(w *harness.Wire, lmtp bool, nrcpt int) string {
+// DATA, all lock-step; it returns an error text if the 354 did not arrive. A
+// backend that answers without reading the message lets the LMTP code path
+// write final replies right after the 354; those octets are returned as early
+// and belong in front of whatever is received later.
+func openData(w *harness.Wire, lmtp bool, nrcpt int) (early []byte, errText string) {
 	var sb strings.Builder
 	fmt.Fprintf(&sb, "%s cli\r\nMAIL FROM:<s@x>\r\n", greetWord(lmtp))
 	for i := 0; i < nrcpt; i++ {
@@ -83,21 +86,24 @@ func openData(w *harness.Wire, lmtp bool, nrcpt int) string {
 	}
 	sb.WriteString("DATA\r\n")
 	if st := w.WaitQuiet(); st != harness.QIdle {
-		return "server not idle after connect: " + st
+		return nil, "server not idle after connect: " + st
 	}
 	w.Recv()
 	out, st := w.Exchange([]byte(sb.String()))
 	if st != harness.QIdle {
-		return "server not idle after DATA: " + st
+		return nil, "server not idle after DATA: " + st
 	}
 	rs, err := harness.ParseReplies(out)
 	if err != nil {
-		return "preamble replies: " + err.Error()
+		return nil, "preamble replies: " + err.Error()
 	}
-	if len(rs) != 3+nrcpt || rs[len(rs)-1].Code != 354 {
-		return fmt.Sprintf("preamble: expected %d replies ending in 354, got %v", 3+nrcpt, codes(rs))
+	if len(rs) < 3+nrcpt || rs[2+nrcpt].Code != 354 {
+		return nil, fmt.Sprintf("preamble: expected %d replies ending in 354, got %v", 3+nrcpt, codes(rs))
 	}
-	return ""
+	for _, r := range rs[3+nrcpt:] {
+		early = append(early, r.Raw...)
+	}
+	return early, ""
 }
 
 // ---- generators ----
@@ -242,4 +248,90 @@ func hasBareCRLF(b []byte) (bareCR, bareLF bool) {
 
 func hasLineStartDot(b []byte) bool {
 	return bytes.HasPrefix(b, []byte(".")) || bytes.Contains(b, []byte("\r\n."))
+}
+
+// ---- conversation builder ----
+
+// expect describes one expected reply: an exact code (Code != 0) or a class.
+type expect struct {
+	Code  int
+	Class int
+	What  string
+}
+
+func (e expect) ok(r harness.Reply) bool {
+	if e.Code != 0 {
+		return r.Code == e.Code
+	}
+	return r.Class() == e.Class
+}
+
+func (e expect) String() string {
+	if e.Code != 0 {
+		return fmt.Sprintf("%d(%s)", e.Code, e.What)
+	}
+	return fmt.Sprintf("%dxx(%s)", e.Class, e.What)
+}
+
+// conv accumulates a client octet stream together with the replies it must
+// produce, in order.
+type conv struct {
+	buf []byte
+	exp []expect
+}
+
+func (c *conv) cmd(line string, exp ...expect) {
+	c.buf = append(c.buf, line...)
+	c.buf = append(c.buf, '\r', '\n')
+	c.exp = append(c.exp, exp...)
+}
+
+func (c *conv) raw(b []byte, exp ...expect) {
+	c.buf = append(c.buf, b...)
+	c.exp = append(c.exp, exp...)
+}
+
+// matchReplies compares parsed replies with the expectation list.
+func matchReplies(rs []harness.Reply, exp []expect) string {
+	for i := 0; i < len(rs) && i < len(exp); i++ {
+		if !exp[i].ok(rs[i]) {
+			return fmt.Sprintf("reply %d is %s, expected %s; got %v, expected %v", i, rs[i], exp[i], codes(rs), exp)
+		}
+	}
+	if len(rs) != len(exp) {
+		return fmt.Sprintf("got %d replies %v, expected %d: %v", len(rs), codes(rs), len(exp), exp)
+	}
+	return ""
+}
+
+// preamble sends the greeting (and optionally an envelope) lock-step and
+// checks the replies. rcptOK lists, per RCPT, whether the script accepts it.
+func preamble(w *harness.Wire, lmtp bool, mail bool, rcpts int) string {
+	if st := w.WaitQuiet(); st != harness.QIdle {
+		return "server not idle after connect: " + st
+	}
+	w.Recv()
+	var sb strings.Builder
+	fmt.Fprintf(&sb, "%s cli\r\n", greetWord(lmtp))
+	n := 1
+	if mail {
+		sb.WriteString("MAIL FROM:<s@x>\r\n")
+		n++
+		for i := 0; i < rcpts; i++ {
+			fmt.Fprintf(&sb, "RCPT TO:<r%d@x>\r\n", i)
+			n++
+		}
+	}
+	out, st := w.Exchange([]byte(sb.String()))
+	if st != harness.QIdle {
+		return "server not idle after preamble: " + st
+	}
+	rs, err := harness.ParseReplies(out)
+	if err != nil {
+		return "preamble replies: " + err.Error()
+	}
+	if len(rs) != n {
+		return fmt.Sprintf("preamble: expected %d replies, got %v", n, codes(rs))
+	}
+	return ""
 }
